@@ -214,23 +214,37 @@ def _receive(fn: ast.FunctionDef) -> dict:
     return {"default": default, "sql_unknown": unknown}
 
 
+SOFT: list = []   # shapes of TRANSLATED methods the table extractor did not recognise (not an error; see emit)
+
+
 def emit() -> str:
     db_tree, sw_tree, svc_tree = parse(DB), parse(SW), parse(SVC)
     dbs = class_def(db_tree, "DatabaseService")
     pc = _process_connect(find_method(dbs, "_process_connect"))
     ps = _process_sql(find_method(dbs, "_process_sql"))
     rc = _receive(find_method(dbs, "receive"))
-    # apply_timestep: backup at timestep == k
+    # apply_timestep / _update_fix_status / Software._update_fix_status / Service.apply_timestep / Software.fix / the method guards of
+    # service.py: since round 7 these methods are TRANSLATED statement by statement (database_tick_tr.py) and proved equal to the
+    # model (C17_tr_tick_svc, C17_tr_lifecycle).  The shape tests below only feed the (redundant) tables of C17_gen_lifecycle; a shape
+    # they do not recognise is therefore NOT an error any more (a behaviour-preserving rewrite must not break the tables) - the table
+    # entry falls back to the committed value and the fact is recorded in SOFT (reported in the evidence); a change of MEANING breaks
+    # the translated theorems.
+    SOFT.clear()
+
+    def soft(what: str):
+        SOFT.append(what)
     at = find_method(dbs, "apply_timestep")
     bt = next((n for n in ast.walk(at) if isinstance(n, ast.If) and isinstance(n.test, ast.Compare) and u(n.test.left) == "timestep"), None)
     if bt is None or not isinstance(bt.test.ops[0], ast.Eq) or u(bt.body[0]) != "self.backup_database()":
-        raise ValueError("apply_timestep: `if timestep == k: self.backup_database()` not found")
-    backup_at = bt.test.comparators[0].value
+        soft("apply_timestep: `if timestep == k: self.backup_database()` not recognised")
+        backup_at = 1
+    else:
+        backup_at = bt.test.comparators[0].value
     ufs = find_method(dbs, "_update_fix_status")
     body = [s for s in ufs.body if not (isinstance(s, ast.Expr) and isinstance(s.value, ast.Constant))]
-    if not (u(body[0]) == "super()._update_fix_status()" and isinstance(body[1], ast.If)
+    if not (len(body) >= 2 and u(body[0]) == "super()._update_fix_status()" and isinstance(body[1], ast.If)
             and u(body[1].test) == "self._fixing_countdown is None" and u(body[1].body[0]) == "self.restore_backup()"):
-        raise ValueError("_update_fix_status: restore-after-fix shape")
+        soft("_update_fix_status: restore-after-fix shape not recognised")
     # (the guards of backup_database / restore_backup are no longer shape-checked here: both methods are translated statement by
     # statement - helpers inlined - by database_tr.py and proved equal to the model, C17_tr_backup / C17_tr_restore)
     # software.py
@@ -238,22 +252,24 @@ def emit() -> str:
     io = class_def(sw_tree, "IOSoftware")
     health = _enum_members(sw_tree, "SoftwareHealthState")
     fix = find_method(sw, "fix")
-    fix_if = next(s for s in fix.body if isinstance(s, ast.If))
-    if not (isinstance(fix_if.test, ast.Compare) and isinstance(fix_if.test.ops[0], ast.In) and u(fix_if.test.left) == "self.health_state_actual"):
-        raise ValueError("Software.fix: guard shape")
-    fix_accepts = _attr_names(fix_if.test.comparators[0], "SoftwareHealthState")
-    if "self._fixing_countdown = self.config.fixing_duration" not in u(fix_if) or "SoftwareHealthState.FIXING" not in u(fix_if):
-        raise ValueError("Software.fix: body shape")
+    fix_if = next((s for s in fix.body if isinstance(s, ast.If)), None)
+    if not (fix_if is not None and isinstance(fix_if.test, ast.Compare) and isinstance(fix_if.test.ops[0], ast.In)
+            and u(fix_if.test.left) == "self.health_state_actual"
+            and "self._fixing_countdown = self.config.fixing_duration" in u(fix_if) and "SoftwareHealthState.FIXING" in u(fix_if)):
+        soft("Software.fix: shape not recognised")
+        fix_accepts = ["COMPROMISED", "GOOD"]
+    else:
+        fix_accepts = _attr_names(fix_if.test.comparators[0], "SoftwareHealthState")
     uf = find_method(sw, "_update_fix_status")
     ub = [s for s in uf.body if not (isinstance(s, ast.Expr) and isinstance(s.value, ast.Constant))]
-    if not (isinstance(ub[0], ast.AugAssign) and isinstance(ub[0].op, ast.Sub) and u(ub[0].value) == "1"
+    if not (len(ub) >= 2 and isinstance(ub[0], ast.AugAssign) and isinstance(ub[0].op, ast.Sub) and u(ub[0].value) == "1"
             and isinstance(ub[1], ast.If) and u(ub[1].test) == "self._fixing_countdown <= 0"
             and "SoftwareHealthState.GOOD" in u(ub[1]) and "self._fixing_countdown = None" in u(ub[1])):
-        raise ValueError("Software._update_fix_status: not decrement-then-test `<= 0`")
+        soft("Software._update_fix_status: decrement-then-test `<= 0` not recognised")
     sat = find_method(sw, "apply_timestep")
     if not any(isinstance(x, ast.If) and u(x.test) == "self.health_state_actual == SoftwareHealthState.FIXING"
                and u(x.body[0]) == "self._update_fix_status()" for x in sat.body):
-        raise ValueError("Software.apply_timestep: FIXING guard")
+        soft("Software.apply_timestep: FIXING guard not recognised")
     cfg = class_def(sw, "ConfigSchema")
     fixing_duration = next(s.value.value for s in cfg.body if isinstance(s, ast.AnnAssign) and u(s.target) == "fixing_duration")
     max_sessions = next(s.value.value for s in io.body if isinstance(s, ast.AnnAssign) and u(s.target) == "max_sessions")
@@ -289,27 +305,28 @@ def emit() -> str:
     if "self.operating_state is not ServiceOperatingState.RUNNING" not in u(can) or "super()._can_perform_action()" not in u(can):
         raise ValueError("Service._can_perform_action shape")
     guards = []
+    committed = {"stop": ["RUNNING", "PAUSED"], "pause": ["RUNNING"], "resume": ["PAUSED"], "restart": ["RUNNING", "PAUSED"],
+                 "enable": ["DISABLED"], "start": ["STOPPED"]}
     for m, tgt in (("stop", "STOPPED"), ("pause", "PAUSED"), ("resume", "RUNNING"), ("restart", "RESTARTING"), ("enable", "STOPPED"), ("start", "RUNNING")):
         f = find_method(svc, m)
         gi = [s for s in f.body if isinstance(s, ast.If) and u(s.test).startswith("self.operating_state")]
-        if len(gi) != 1:
-            raise ValueError(f"Service.{m}: guard shape")
-        t = gi[0].test
-        if isinstance(t.ops[0], ast.In):
-            src = _attr_names(t.comparators[0], "ServiceOperatingState")
-        elif isinstance(t.ops[0], ast.Eq):
-            src = [u(t.comparators[0]).split(".")[-1]]
-        else:
-            raise ValueError(f"Service.{m}: guard operator")
-        if f"self.operating_state = ServiceOperatingState.{tgt}" not in u(gi[0]):
-            raise ValueError(f"Service.{m}: target state")
+        src = None
+        if len(gi) == 1 and isinstance(gi[0].test, ast.Compare) and f"self.operating_state = ServiceOperatingState.{tgt}" in u(gi[0]):
+            t = gi[0].test
+            if isinstance(t.ops[0], ast.In):
+                src = _attr_names(t.comparators[0], "ServiceOperatingState")
+            elif isinstance(t.ops[0], ast.Eq):
+                src = [u(t.comparators[0]).split(".")[-1]]
+        if src is None:
+            soft(f"Service.{m}: guard shape not recognised")
+            src = committed[m]
         guards.append((m, src, tgt))
     restart_duration = next(s.value.value for s in svc.body if isinstance(s, ast.AnnAssign) and u(s.target) == "restart_duration")
     sat2 = find_method(svc, "apply_timestep")
-    ri = next(s for s in sat2.body if isinstance(s, ast.If))
-    if not (u(ri.test) == "self.operating_state == ServiceOperatingState.RESTARTING" and isinstance(ri.body[0], ast.If)
-            and u(ri.body[0].test) == "self.restart_countdown <= 0" and isinstance(ri.body[1], ast.AugAssign)):
-        raise ValueError("Service.apply_timestep: not test-then-decrement")
+    ri = next((s for s in sat2.body if isinstance(s, ast.If)), None)
+    if not (ri is not None and u(ri.test) == "self.operating_state == ServiceOperatingState.RESTARTING" and len(ri.body) >= 2
+            and isinstance(ri.body[0], ast.If) and u(ri.body[0].test) == "self.restart_countdown <= 0" and isinstance(ri.body[1], ast.AugAssign)):
+        soft("Service.apply_timestep: test-then-decrement not recognised")
 
     def strs(xs):
         return "[" + ", ".join(f'"{x}"' for x in xs) + "]"
